@@ -170,7 +170,7 @@ def event_kind(desc_case_line):
 
 
 ABS_PROPS = {"C01", "C02", "C03", "C04", "C05", "C06", "C09"}
-CFG_PROPS = {"C01", "C02", "C03", "C04", "C06", "C08", "C09", "C11"}   # histories with membership changes, crashes and snapshots against Abs/CfgRaft.v
+CFG_PROPS = {"C01", "C02", "C03", "C04", "C06", "C07", "C08", "C09", "C11"}   # histories with membership changes, crashes and snapshots against Abs/CfgRaft.v
 ABS_CODES = {1: "no projection listed for the event's node", 2: "observed projections differ from the abstract state after the event",
              10: "election started by node 0", 11: "election started by a node that is leader",
              20: "vote granted to candidate 0", 21: "vote granted for an election nobody started", 22: "vote granted although the voter "
@@ -559,8 +559,11 @@ reg_node("C04", "Theorems: (abstract protocol, Props/C04.v) log matching for any
 reg_node("C07", "Theorems (node level): non-leaders reject definitively and change nothing; a transferring/demoted leader rejects the whole batch; "
          "accepted updates are appended in batch order at the next indices with the leader's term; tasks are released only as a committed prefix "
          "of the queue (so a read/barrier reflects every update accepted before it); an update's reply is the state machine's result for the entry "
-         "at its index; at the end of leadership every queued task gets the ambiguous answer. Uniqueness/survival of the entry: C02/C03.",
-         ["batching by runBatch is a schedule choice (any batching is a list handed to storeEntry)"])
+         "at its index; at the end of leadership every queued task gets the ambiguous answer. Cluster level (Props/C07_abs.v, over every run of the "
+         "abstract protocol with membership changes, crashes, snapshots and truncated requests): an update submitted once occurs at most once in any "
+         "node's log, at the same index and term in every log that holds it, and never if it was not submitted (cfg_client_entry_*); together with "
+         "C02/C03 (it stays once committed; state machines agree) this gives exactly-once for completed and at-most-once for ambiguous updates.",
+         ["batching by runBatch is a schedule choice (any batching is a list handed to storeEntry)"], extra_props=["C07_abs.v"])
 reg_node("C09", "Theorems (node level): apply is contiguous; a snapshot never exceeds the commit index; compaction removes only a prefix at or below "
          "the snapshot; on a leader it keeps the entry at every follower's match index and hands replications a view that starts inside the log; "
          "the request writer yields log entries or asks for a snapshot; installation resets log and state machine position together. PARTIAL: the "
